@@ -833,6 +833,10 @@ def replay(path):
         from checks import altcfg
 
         return altcfg.replay(data)
+    if rp.get("kind") == "sensor":
+        from checks import tank_common
+
+        return tank_common.replay_sensor(rp)
     if rp.get("kind") == "mainrun":
         from checks import main_wiring
 
